@@ -265,11 +265,18 @@ func c06HandBacks(short bool) []*gen.Expr {
 			switch op.kind {
 			case "n", "s":
 				out = append(out, gen.Func("reverse", p()), gen.Func("sort", p()), gen.Func("sort_by", p(), gen.ExpRef(gen.Current())))
+				// a filter that drops an element standing before one it keeps (survivors written over the operand's own storage would show)
+				if op.kind == "n" {
+					out = append(out, gen.Chain(p(), gen.StFilter(gen.Cmp("<", gen.Current(), gen.LitJSON("3")))), gen.Chain(p(), gen.StFilter(gen.Cmp(">=", gen.Current(), gen.LitJSON("2"))), gen.StIndex(0)))
+				} else {
+					out = append(out, gen.Chain(p(), gen.StFilter(gen.Cmp("!=", gen.Current(), gen.Raw("b")))), gen.Chain(p(), gen.StFilter(gen.Cmp("==", gen.Current(), gen.Raw("c")))))
+				}
 				if !short {
 					out = append(out, gen.Chain(gen.MultiList(gen.LitJSON(`[0,0,0]`), p()), gen.StFlatten()), gen.Func("reverse", gen.Func("reverse", p())), gen.Chain(p(), gen.StFlatten()))
 				}
 			case "o":
-				out = append(out, gen.Func("sort_by", p(), gen.ExpRef(gen.Field("n"))), gen.Func("reverse", p()))
+				out = append(out, gen.Func("sort_by", p(), gen.ExpRef(gen.Field("n"))), gen.Func("reverse", p()),
+					gen.Chain(p(), gen.StFilter(gen.Cmp("!=", gen.Field("n"), gen.LitJSON("2"))), gen.StField("s")), gen.Chain(p(), gen.StFilter(gen.Cmp(">", gen.Field("n"), gen.LitJSON("1")))))
 				if !short {
 					out = append(out, gen.Func("map", gen.ExpRef(gen.Func("merge", gen.Current(), gen.LitJSON(`{"seen":true}`))), p()), gen.Chain(gen.Func("sort_by", p(), gen.ExpRef(gen.Field("s"))), gen.StIndex(0)))
 				}
